@@ -21,6 +21,7 @@ import (
 	"strconv"
 	"strings"
 	"sync"
+	"sync/atomic"
 	"time"
 
 	"github.com/goccy/go-yaml"
@@ -59,6 +60,11 @@ type caseT struct {
 	Schema bool
 	NV     int
 	Bound  bool
+	// Plain: the bound struct has no Validate() method (same fields, declared as another type)
+	Plain bool `json:",omitempty"`
+	// Stress: after the history, a key is toggled by 300 Loads on a small Config of its own while two
+	// goroutines hammer the …Or getters; a result that is neither the value nor the default is an anomaly
+	Stress bool `json:",omitempty"`
 	Loads  []loadT
 	Keys   []string // Get probes after every Load
 }
@@ -93,6 +99,9 @@ type Meta struct {
 	hidden int
 	Skip   string `config:"-"`
 }
+
+// plainBound has Bound's fields and none of its methods.
+type plainBound Bound
 
 func (b *Bound) Validate() error {
 	if h := validateHook; h != nil {
@@ -333,7 +342,11 @@ func (r *runT) build(c *caseT, withHooks bool) error {
 	}
 	if c.Bound {
 		r.bound = &Bound{}
-		opts = append(opts, config.WithBinding(r.bound))
+		if c.Plain {
+			opts = append(opts, config.WithBinding((*plainBound)(r.bound)))
+		} else {
+			opts = append(opts, config.WithBinding(r.bound))
+		}
 	}
 	cfg, err := config.New(opts...)
 	r.cfg = cfg
@@ -726,6 +739,60 @@ func lookupPath(m map[string]any, path []string) bool {
 	return false
 }
 
+// toggleSrc returns a map with or without the keys, by turns.
+type toggleSrc struct{ n atomic.Int64 }
+
+func (s *toggleSrc) Load(context.Context) (map[string]any, error) {
+	if s.n.Add(1)%2 == 0 {
+		return map[string]any{"on": true, "n": 7, "s": "val", "sec": map[string]any{"on": true}}, nil
+	}
+	return map[string]any{"other": 1}, nil
+}
+
+// stressOrGetters: while Loads add and remove keys, every …Or getter must return the value or
+// the default, never anything else (for instance the zero value).
+func stressOrGetters() (anomaly bool) {
+	cfg, err := config.New(config.WithSource(&toggleSrc{}))
+	if err != nil {
+		return false
+	}
+	_ = cfg.Load(context.Background())
+	var bad atomic.Bool
+	stop := make(chan struct{})
+	var wg sync.WaitGroup
+	for g := 0; g < 2; g++ {
+		wg.Add(1)
+		go func() {
+			defer wg.Done()
+			for {
+				select {
+				case <-stop:
+					return
+				default:
+				}
+				if !cfg.BoolOr("on", true) || !cfg.BoolOr("sec.on", true) {
+					bad.Store(true)
+				}
+				if v := cfg.IntOr("n", 7); v != 7 {
+					bad.Store(true)
+				}
+				if v := cfg.StringOr("s", "val"); v != "val" {
+					bad.Store(true)
+				}
+				if v := config.GetOr(cfg, "n", 7); v != 7 {
+					bad.Store(true)
+				}
+			}
+		}()
+	}
+	for i := 0; i < 300; i++ {
+		_ = cfg.Load(context.Background())
+	}
+	close(stop)
+	wg.Wait()
+	return bad.Load()
+}
+
 var fixedTime = time.Date(2024, 1, 2, 3, 4, 5, 0, time.UTC)
 
 var caseCtr int
@@ -879,7 +946,16 @@ func emit(id string, c caseT, st *hx.Stats) string {
 			l.Bool(o.failB)
 		}
 	}
+	if c.Stress {
+		l.Tok("ST").Bool(stressOrGetters())
+	}
 	if st != nil {
+		if c.Stress {
+			st.Count("with_or_getter_stress")
+		}
+		if c.Plain {
+			st.Count("binding_without_validate_method")
+		}
 		st.Case(in[len(id):], overlaps > 0 || faults > 0 || vanished > 0)
 		st.Count("loads_" + strconv.Itoa(len(c.Loads)))
 		if overlaps > 0 {
@@ -1024,6 +1100,8 @@ func genCase(r *hx.Rand, tier string) caseT {
 	c.Schema = r.Chance(1, 3)
 	c.NV = r.Intn(3)
 	c.Bound = r.Chance(2, 3)
+	c.Plain = c.Bound && r.Chance(1, 4)
+	c.Stress = r.Chance(1, 60)
 	nsrc := r.Range(1, 4)
 	kinds := make([]string, nsrc)
 	for i := range kinds {
